@@ -8,7 +8,7 @@ CONSTANTS
   Fmts = {"bc", "idx_bc"}
   NFiles = {1}
   Lazy = {TRUE}
-  Touches = {"getitem"}
+  Touches = {"lookup", "getitem"}
   Variant = "design"
 CONSTRAINT Emit
 CONSTRAINT OnlyInit
